@@ -198,7 +198,7 @@ class C06Engine(PairedEngine):
             "nameplate of the same name or a mailbox with a common side string at some point of H")
 
     def prepare(self, spec, seed, tier):
-        apps = sorted(set(app_of_conns(spec["steps"]).values()))
+        apps = sorted(set(a for a in app_of_conns(spec["steps"]).values() if isinstance(a, str)))
         spec["target_app"] = make_rng(seed, "c06").choice(apps) if apps else None
         return spec
 
